@@ -397,6 +397,80 @@ def run_oracle(ctx):
     check_one_step(ctx, 'tet', skfem.MeshTet2.from_mesh(m), {'a': [5]}, {}, 'tet2-example', order=2, disjoint=False)
 
 
+# ------------------------------------------------------------------------------------------ Mesh.refined dispatch
+
+def dispatch_corr(ctx):
+    """the real Mesh.refined on an instrumented class (its _uniform / _adaptive only record the call) against the model:
+    the trace of calls, for scalars of every kind, index collections, masks and empty selections"""
+    import skfem
+    rng = np_seed(ctx, 122)
+    trace = []
+
+    class Rec(skfem.MeshTri1):
+        def _uniform(self):
+            trace.append(('U', None))
+            return self
+
+        def _adaptive(self, marked):
+            trace.append(('A', marked))
+            return self
+    m = Rec()
+    nt = 6
+    args = [0, 1, 2, 3, -1, -2, True, False, np.int64(2), np.int32(1), np.int64(0), [], (), np.array([], dtype=np.int64),
+            np.array([]), [0], (1, 2), [2, 0, 2], np.array([1, 3]), np.array([4], dtype=np.int32),
+            np.zeros(nt, dtype=bool), np.ones(nt, dtype=bool), [True, False, True, False, False, True]]
+    for _ in range(ctx.n(10, 40)):
+        r = rng.random()
+        if r < 0.3:
+            args.append(int(rng.integers(-2, 5)))
+        elif r < 0.65:
+            args.append(rng.integers(0, nt, size=int(rng.integers(0, 5))).astype(np.int64))
+        else:
+            args.append(rng.random(nt) < 0.5)
+    # observation, reported to the coordinator (proposed key refined-dispatch-numpy-bool): a NumPy bool SCALAR is not accepted
+    # (range(np.True_) raises TypeError) although Python's True is; recorded in the evidence, not counted as a failure
+    try:
+        m.refined(np.bool_(True))
+        ctx.extra['refined_numpy_bool_scalar'] = 'accepted'
+    except Exception as e:
+        ctx.extra['refined_numpy_bool_scalar'] = f'Mesh.refined(np.bool_(True)) raises {type(e).__name__}: {e}'
+    cases = []
+    for a in args:
+        del trace[:]
+        try:
+            m.refined(a)
+        except Exception as e:
+            ctx.fail('refined-dispatch', f'Mesh.refined({a!r}) raised {type(e).__name__}: {e}', {'arg': repr(a)})
+            continue
+        ev = []
+        for kind, mk in trace:
+            if kind == 'U':
+                ev.append('(true, [])')
+            else:
+                mk = np.asarray(mk)
+                if mk.dtype.kind not in 'iu' or mk.ndim != 1:
+                    ctx.fail('refined-dispatch', f'Mesh.refined({a!r}) hands {mk!r} (dtype {mk.dtype}, ndim {mk.ndim}) to _adaptive',
+                             {'arg': repr(a)})
+                ev.append('(false, %s)' % cnats([int(v) for v in mk]))
+        if np.ndim(a) == 0:
+            term = f'RScalar ({int(a)})%Z'
+        else:
+            arr = np.asarray(a)
+            if arr.dtype == bool:
+                term = 'RMask ' + clist(['true' if v else 'false' for v in arr])
+            else:
+                term = 'RIndex ' + cnats([int(v) for v in arr])
+        cases.append((f'({term})', clist(ev), {'arg': repr(a), 'calls': len(trace)}))
+    defs = '''
+Definition ev := (bool * list nat)%type.
+Definition ev_eqb (a b : ev) : bool := Bool.eqb (fst a) (fst b) && nats_eqb (snd a) (snd b).
+Definition run (arg : rarg) : list ev :=
+  gen_refined_dispatch (fun t : list ev => t ++ [(true, [])]) (fun ix t => t ++ [(false, ix)]) arg [].
+'''
+    ctx.corr('refined_dispatch', 'From Coq Require Import List Arith Bool ZArith.\nRequire Import Model.C12_Refine Gen.C12Gen.',
+             'run', '(list_eqb ev_eqb)', cases, defs=defs, per_file=len(cases), nontrivial=lambda r: r['calls'] >= 1)
+
+
 # ------------------------------------------------------------------------------------------ the check
 
 def run(ctx):
@@ -457,6 +531,8 @@ def run(ctx):
                                    **({'sort_t': c['sort_t']} if kind == 'tri' else {}))
             check_one_step(ctx, kind, m, {'a': c['subdomain']}, {'b': c['boundary']} if kind in ('tri', 'quad') else {},
                            'corr-disagreement')
+    if dyn_ok:
+        dispatch_corr(ctx)
     # the search / supporting validation on the real code
     run_oracle(ctx)
 
